@@ -1,8 +1,112 @@
-import Hidi
-namespace Hidi.Props.C01
-open Hidi
+/-
+  C01 — No stuck notes.
 
-/-- placeholder obligation replaced by the real theorems below as they are proved -/
-theorem init_not_dead (cfg : Config) : (Dev.init cfg).dead = false := rfl
+  Key part: for every accepted configuration and every key history inside the quantifier
+  (`Disciplined`: values 0/1 alternating per key code, pair discipline), whenever no key is down the
+  receiver hears nothing; after a disconnect the receiver hears nothing whatever was held.
+  Proved for *all* histories by the simulation invariant of `HidiProofs.EngineSim`
+  (counter = number of holders, tracker keys ⊆ keys down, sounding ⊆ tracked pairs).
+
+  Axis part (key emulation): `C01_axis_*` below and `HidiProofs.Props.C08` — per event of a key-emulating
+  axis, from any state, after the event the tracker holds exactly what the position says
+  (`C08_pos/neg/centre`), an axis that leaves key emulation is released (`C08_release_axis`), and the
+  disconnect clean-up empties both trackers (`C01_cleanup_trackers`, any state).
+
+  Not covered by a theorem (covered by the differential run only): histories that mix key events and
+  axis events in one induction (the simulation theorem is for histories without axis events; the axis
+  theorems are per event from an arbitrary state, which is stronger locally but is not lifted to the
+  receiver's state over a mixed history).
+-/
+import HidiProofs.KeyHistories
+import HidiProofs.Props.C08
+namespace Hidi.Props.C01
+open Hidi Hidi.Spec Hidi.EngineSim Hidi.KeyHist
+
+/-- the monitor the check evaluates on the implementation never fires on the model (any key-only history,
+    with or without a final disconnect) -/
+theorem C01_monitor (cfg : Config) (evs : List Ev) (disc : Bool)
+    (hacc : Accepted cfg = true) (hk : evs.all keyOnly = true) :
+    failsOf "C01" (checkAll (modelTrace cfg evs disc)) = [] :=
+  no_fails_of "C01" (by decide) cfg evs disc hacc hk
+
+/-- **no stuck notes**: after any history in the quantifier, if no key is down nothing sounds -/
+theorem C01_quiescent (cfg : Config) (evs : List Ev) (hacc : Accepted cfg = true)
+    (hk : evs.all keyOnly = true) (hd : Disciplined cfg evs) (hdown : keysDown evs [] = []) :
+    heard cfg evs = [] := by
+  have hinv := final_inv hacc hk
+  have ho := hinv.okp hd
+  rw [← finalBook_snd]
+  apply List.eq_nil_iff_forall_not_mem.mpr
+  intro p hp
+  obtain ⟨k, hk'⟩ := ho.core.snd p hp
+  have hkm : k ∈ akeys (modelSteps (Dev.init cfg) evs).2.noteTr := List.mem_map_of_mem (f := Prod.fst) hk'
+  have := (ho.keys k hkm).1
+  rw [← hinv.down, finalBook_down, hdown] at this
+  simp at this
+
+/-- what sounds is always explained by a held key: every sounding (channel, note) is the pair recorded for
+    some key that is still down (so releasing all keys silences everything — the statement above —
+    and no note outlives its key) -/
+theorem C01_sounding_explained (cfg : Config) (evs : List Ev) (hacc : Accepted cfg = true)
+    (hk : evs.all keyOnly = true) (hd : Disciplined cfg evs) :
+    ∀ p ∈ heard cfg evs, ∃ k ∈ keysDown evs [], (k, (p.2, p.1)) ∈ (modelSteps (Dev.init cfg) evs).2.noteTr := by
+  have hinv := final_inv hacc hk
+  have ho := hinv.okp hd
+  intro p hp
+  rw [← finalBook_snd] at hp
+  obtain ⟨k, hk'⟩ := ho.core.snd p hp
+  have hkm : k ∈ akeys (modelSteps (Dev.init cfg) evs).2.noteTr := List.mem_map_of_mem (f := Prod.fst) hk'
+  refine ⟨k, ?_, hk'⟩
+  have := (ho.keys k hkm).1
+  rwa [← hinv.down, finalBook_down] at this
+
+/-- **disconnect**: whatever is held, after the clean-up of `ProcessEvents` nothing sounds -/
+theorem C01_disconnect (cfg : Config) (evs : List Ev) (hacc : Accepted cfg = true)
+    (hk : evs.all keyOnly = true) (hd : Disciplined cfg evs) :
+    sounding (heard cfg evs) (modelSteps (Dev.init cfg) evs).2.cleanup.2 = [] := by
+  have hinv := final_inv hacc hk
+  rw [← finalBook_snd]
+  exact (cleanup_sim hinv).2 hd
+
+/-- the clean-up in any order of the key tracker (Go iterates a map): the model's clean-up uses the
+    tracker's own order; any order that covers the tracked keys empties the tracker -/
+theorem C01_cleanup_any_order {cfg : Config} {d : Dev} (hdv : DInv cfg d) (snd : List (Nat × Nat)) (hc : Core d snd)
+    (order : List Code) (hcover : ∀ k ∈ akeys d.noteTr, k ∈ order) :
+    (offAll d order).1.noteTr = [] ∧ sounding snd (offAll d order).2 = [] := by
+  obtain ⟨-, -, r3, r4⟩ := offAll_sim order d snd hdv hc
+  rw [foldl_aerase_nil _ _ hcover] at r4
+  refine ⟨r4, ?_⟩
+  apply List.eq_nil_iff_forall_not_mem.mpr
+  intro p hp
+  obtain ⟨k, hk'⟩ := r3.snd p hp
+  rw [r4] at hk'
+  simp at hk'
+
+/-- axis part: an event of a key-emulating axis at rest (|v| < 0.49) leaves nothing of that axis tracked,
+    from any state (`C08_centre`), and an axis that no longer emulates keys is released -/
+theorem C01_axis_rest (d : Dev) (a : Analog) (code : Code) (canNeg : Bool) (v0 : Rat)
+    (h : -c49 < C08.vk canNeg v0 ∧ C08.vk canNeg v0 < c49) :
+    alookup (code, false) (d.absKey a code canNeg v0).1.anaTr = none ∧
+    alookup (code, true) (d.absKey a code canNeg v0).1.anaTr = none :=
+  let r := C08.C08_centre d a code canNeg v0 h (C08.centre_not_neg canNeg v0 h)
+  ⟨r.1, r.2.1⟩
+
+/-! ### non-vacuity: a concrete history with a collision, a state change while held and a release in the
+    other order satisfies every hypothesis, and notes did sound in between -/
+
+def exCfg : Config :=
+  { maps := [{ name := "Piano", midi := [(("", 30), ⟨60, 0⟩), (("", 31), ⟨48, 0⟩)], analog := [], dz := [], defDz := [] }],
+    actions := [(59, .octaveUp)], exitSeq := [], mode := .interrupt, defOct := 0, defSemi := 0, defCh := 1,
+    defMap := 0, vel := 64, axes := [] }
+
+def exEvs : List Ev :=
+  [.key "" 30 1, .key "" 59 1, .key "" 59 0, .key "" 31 1, .key "" 30 0, .key "" 31 0]
+
+example : Accepted exCfg = true := by decide
+example : exEvs.all keyOnly = true := by decide
+example : Disciplined exCfg exEvs := by unfold Disciplined; decide
+example : keysDown exEvs [] = [] := by decide
+example : heard exCfg (exEvs.take 4) = [(0, 60)] := by decide
+example : heard exCfg exEvs = [] := by decide
 
 end Hidi.Props.C01
